@@ -261,16 +261,16 @@ func main() {
 				ps[i] = vlib.Pair(vlib.N(rk.Rank(string(idb))), vlib.N(ldiffh.HeadNum(e[1])))
 			}
 			_ = q
-			return vlib.App("mkObs", vlib.N(tok(ob.Hash)), vlib.List(ps), vlib.N(uint64(ob.Count)))
+			return fmt.Sprintf("(%d, %s, %d)", tok(ob.Hash), vlib.List(ps), ob.Count)
 		}
 		var steps []string
 		directMsg := ""
 		for i, op := range s.Ops {
 			var opT string
 			if op.Remove != nil {
-				opT = vlib.App("ORemove", vlib.N(rk.Rank(op.Remove.ID())))
+				opT = vlib.App("IRemove", vlib.N(rk.Rank(op.Remove.ID())))
 			} else {
-				opT = vlib.App("OSet", rk.ElemsTerm(op.Set))
+				opT = vlib.App("ISet", rk.ElemsTerm(op.Set))
 			}
 			if i >= len(res.Steps) {
 				break
@@ -286,14 +286,14 @@ func main() {
 			}
 			qt := make([]string, len(s.Queries[i]))
 			for j, q := range s.Queries[i] {
-				qt[j] = vlib.App("mkQ", vlib.N(q.From), vlib.N(q.To), vlib.Bool(q.Elements))
+				qt[j] = fmt.Sprintf("(%s, %s, %s)", ldiffh.HiLo(q.From), ldiffh.HiLo(q.To), vlib.Bool(q.Elements))
 			}
-			steps = append(steps, vlib.App("mkStep", opT, vlib.Bool(sr.Ok), vlib.List(qt), vlib.List(inc), vlib.List(fr)))
+			steps = append(steps, fmt.Sprintf("(%s, %s, %s, %s, %s)", opT, vlib.Bool(sr.Ok), vlib.List(qt), vlib.List(inc), vlib.List(fr)))
 			if directMsg == "" && (sr.IncHash != sr.FreshHash || sr.IncLen != sr.FreshLen) {
 				directMsg = fmt.Sprintf("after op %d: Hash() %s (incremental) != %s (freshly filled), Len %d vs %d", i, sr.IncHash, sr.FreshHash, sr.IncLen, sr.FreshLen)
 			}
 		}
-		term := vlib.App("CHist", vlib.N(uint64(s.Df)), vlib.N(uint64(s.Th)), vlib.List(steps))
+		term := vlib.App("ICHist", vlib.N(uint64(s.Df)), vlib.N(uint64(s.Th)), vlib.List(steps)) + "%uint63"
 		desc := map[string]interface{}{"spec": s, "fail": fail, "panic": res.Panic, "tags": s.Tags, "hash_mismatch": directMsg}
 		idx := w.Add(term, desc, term, len(s.Ops) >= 3)
 		w.Stat("shape_" + s.Shape)
